@@ -31,7 +31,9 @@ import (
 	"strings"
 )
 
-func main() { tx.Main(tx.Unit{Name: "T3", File: "GenCfgMsg.v", Fn: genCfgMsg}) }
+func main() {
+	tx.Main(tx.Unit{Name: "T3", File: "GenCfgMsg.v", Fn: genCfgMsg}, tx.Unit{Name: "T7F", File: "GenFlags.v", Fn: genFlags})
+}
 
 type fieldInfo struct {
 	name     string
@@ -652,7 +654,7 @@ func (t *tr) stmts(list []ast.Stmt, ev *env, mo *methodOut, indent, guard string
 	}
 }
 
-func genCfgMsg() ([]byte, error) {
+func loadTables() (*tr, error) {
 	t := &tr{structs: map[string]*structInfo{}, namedStr: map[string]bool{}, consts: map[string]string{}, methods: map[string]*ast.FuncDecl{}, fset: token.NewFileSet()}
 	if err := t.parseDir(filepath.Join(tx.Repo, "pkg/config/v1"), "", nil); err != nil {
 		return nil, err
@@ -661,6 +663,14 @@ func genCfgMsg() ([]byte, error) {
 		return nil, err
 	}
 	if err := t.parseDir(filepath.Join(tx.Repo, "pkg/config/types"), "types.", map[string]bool{}); err != nil {
+		return nil, err
+	}
+	return t, nil
+}
+
+func genCfgMsg() ([]byte, error) {
+	t, err := loadTables()
+	if err != nil {
 		return nil, err
 	}
 	// constants of package v1 are also reachable as v1.X from other packages; here bare names suffice
